@@ -28,6 +28,11 @@ func init() {
 			cfg.TxStyle = "unique"
 			cfg.FairSuffix = r.Bool(0.5)
 			withMembership(cfg, r, 0.2)
+			if r.Bool(0.3) {
+				// applications whose commit handler sometimes reports an error after
+				// having applied the block
+				cfg.PAppError = 0.05
+			}
 			return cfg
 		},
 		run: clusterRun,
